@@ -275,6 +275,8 @@ func genPP(rng *rand.Rand) ppCase {
 			c.Defines = append(c.Defines, n) // no '='
 		case 1:
 			c.Defines = append(c.Defines, "="+ppVals[rng.Intn(len(ppVals))]) // empty name
+		case 2: // -D values are taken as they are, outer blanks included
+			c.Defines = append(c.Defines, n+"="+[]string{" ", " x", "x ", "  a b  ", "\t", " ~p~ ", "  "}[rng.Intn(7)])
 		default:
 			c.Defines = append(c.Defines, n+"="+ppVals[rng.Intn(len(ppVals))])
 		}
